@@ -107,7 +107,11 @@ def lexValue (k : Key) (v : List Char) : List Tok :=
   | .rule => lexRule (words v) .sBegin
   | _ => textTok v
 
-/-- one physical line: `none` = empty after `strip_comments` -/
+/-- one physical line: `none` = empty after `strip_comments`.  A `term` / `rule` line is read a second time by
+    `FllImporter.term / rule` through `extract_value(line, "term")`, which compares the text before the colon with the
+    key *without stripping it*: `term : …` (white space before the colon) is a `SyntaxError` there - when the component
+    is processed, not when the line is met.  Such a line is therefore a line of the unknown key `term ` (with the
+    white space), which every component rejects with a `SyntaxError`. -/
 def lexLine (s : List Char) : Except Err (Option Line) :=
   let body := trimChars (s.takeWhile (· ≠ '#'))
   if body.isEmpty then .ok none
@@ -115,13 +119,50 @@ def lexLine (s : List Char) : Except Err (Option Line) :=
     | (_, []) => .error .syntax
     | (k, _ :: v) =>
       let key := Key.ofText (String.ofList (trimChars k))
-      .ok (some ⟨key, lexValue key (trimChars v)⟩)
+      if (key = .term ∨ key = .rule) ∧ k ≠ trimChars k then .ok (some ⟨.other (String.ofList k), textTok (trimChars v)⟩)
+      else .ok (some ⟨key, lexValue key (trimChars v)⟩)
+
+/-- `str.split("\n")` -/
+def splitNl : List Char → List (List Char)
+  | [] => [[]]
+  | c :: r =>
+    if c = '\n' then [] :: splitNl r
+    else match splitNl r with
+      | [] => [[c]]
+      | h :: t => (c :: h) :: t
+
+/-- `"\n".join(...)` -/
+def joinNl : List (List Char) → List Char
+  | [] => []
+  | [a] => a
+  | a :: b :: r => a ++ '\n' :: joinNl (b :: r)
 
 def lexText (s : String) : Except Err (List Line) :=
-  (s.splitOn "\n").foldr (fun raw acc => do
+  (splitNl s.toList).foldr (fun raw acc => do
       let rest ← acc
-      match ← lexLine raw.toList with
+      match ← lexLine raw with
       | none => pure rest
       | some l => pure (l :: rest)) (.ok [])
+
+/-- the loop of `FllImporter.engine` on raw lines: the loop of the token-level model (`engineLoop`) with the lexer
+    applied to each line when the loop reaches it (a line without a colon is a `SyntaxError` at that line, after the
+    errors of the components completed before it) -/
+def engineLoopText : List String → Option Key → List Line → Engine → Except Err Engine
+  | [], comp, block, e => engineLoop [] comp block e
+  | raw :: rs, comp, block, e =>
+    match lexLine raw.toList with
+    | .error err => .error err
+    | .ok none => engineLoopText rs comp block e
+    | .ok (some l) =>
+      if isHeader l.key then
+        match comp with
+        | some k => (processBlock k block e) >>= engineLoopText rs (some l.key) [l]
+        | none => engineLoopText rs (some l.key) [l] e
+      else engineLoopText rs comp (block ++ [l]) e
+
+/-- `FllImporter.from_string` on a text (equal to `lexText` followed by `fllImport` whenever every line lexes:
+    `Lemmas/CodeFllImportEngine.lean`) -/
+def importTextLazy (fll : String) : Except Err Engine :=
+  engineLoopText ((splitNl fll.toList).map String.ofList) none [] {}
 
 end Op.FllIO
